@@ -18,7 +18,11 @@ CUR = [("A(0) U(0,1) W(0) R(0,0,0) Z", {}), ("A(0) U(0,0) W(0) W(0) R(0,0,0) R(0
        ("A(0) U(0,0) U(0,1) W(0) W(0) N(0,0) R(0,0,0) R(0,1,0) Z", {}), ("A(0) U(0,1) W(0) N(0,1) R(0,0,0) Z", {}),
        ("A(0) A(1) U(0,0) W(0) W(1) W(0) R(0,0,0) R(0,1,0) R(0,2,0) Z", {}),
        ("A(0) U(0,0) W(0) W(0) W(0) B(0,1) R(0,0,0) R(0,1,0) Z", {}), ("A(0) U(0,1) U(0,3) N(0,3) W(0) R(0,0,0) Z", {}),
-       ("A(0) U(0,0) U(1,0) W(0) N(1,0) R(1,0,0) R(0,1,0) Z", {}), ("U(0,1) N(0,2) N(0,1) N(0,1) Z", {})]
+       ("A(0) U(0,0) U(1,0) W(0) N(1,0) R(1,0,0) R(0,1,0) Z", {}), ("U(0,1) N(0,2) N(0,1) N(0,1) Z", {}),
+       # a context whose PREFNEW / RECVBUF differ from the socket's, overflowing (contexts are independent)
+       ("A(0) U(1,0) B(1,2) P(1,0) W(0) W(0) W(0) R(1,0,0) R(1,1,0) R(1,2,0) Z", {}),
+       ("A(0) U(1,0) U(0,0) B(1,2) B(0,2) P(0,0) W(0) W(0) W(0) R(1,0,0) R(1,1,0) R(0,2,0) R(0,3,0) Z", {}),
+       ("A(0) U(1,0) B(1,1) P(1,0) W(0) W(0) R(1,0,0) R(1,1,0) Z", {}), ("A(0) U(1,0) U(0,0) B(1,1) P(0,0) W(0) W(0) R(1,0,0) R(0,1,0) Z", {})]
 ALPHA = ["U(0,0)", "U(0,1)", "U(0,2)", "U(1,1)", "N(0,1)", "N(0,0)", "W(0)", "WK(0,1)", "WK(0,4)", "R(0,%d,0)", "R(0,%d,1)", "R(1,%d,0)", "P(0,0)"]
 
 
@@ -31,8 +35,8 @@ def queries(tier):
             words.append(("A(0) " + w, {"RECVBUF0": 1}))
     import itertools
     for lens in itertools.product((-1, 0, 1, 2), repeat=3):
-        if lens != tuple(sorted(lens)) and tier == "quick":
-            continue
+        if lens != tuple(sorted(lens)) and lens != tuple(sorted(lens, reverse=True)) and tier == "quick":
+            continue   # quick: ascending and descending subscribe orders (the topic list is kept in subscribe order)
         for bl in (0, 1, 2, 3):
             qs.append(Query("match-t%s-b%d" % ("".join("x" if l < 0 else str(l) for l in lens), bl), "c05/match.c", tus=TUS, env=ENV,
                             defs={"L0": lens[0], "L1": lens[1], "L2": lens[2], "BL": bl}, unwind=10, unwind_rules=KIT_RULES, timeout=120,
